@@ -102,6 +102,9 @@ def operation_plan(draw, dialects=("3.0", "3.0", "3.1", "2.0"), max_params=4, bo
     if draw(st.integers(0, 3)) == 0:
         kind = draw(st.sampled_from(["apiKey-header", "apiKey-query", "apiKey-cookie", "basic", "bearer"] if dialect != "2.0" else ["apiKey-header", "apiKey-query", "basic"]))
         plan["security"] = {"kind": kind, "name": {"apiKey-header": "X-Api-Key", "apiKey-query": "api_key", "apiKey-cookie": "token"}.get(kind, "Authorization")}
+        if kind in ("basic", "bearer"):
+            # the scheme name is matched without regard to case (RFC 7235): `Bearer`, `BASIC`
+            plan["security"]["spelling"] = draw(st.sampled_from(["lower", "lower", "title", "upper"]))
         if kind.startswith("apiKey-") and draw(st.booleans()):
             # the document also declares a parameter under the scheme's name and location (with a schema of its own)
             loc = kind.split("-")[1]
@@ -190,7 +193,7 @@ def build_doc(plan) -> dict:
     }
     if sec:
         if sec["kind"] in ("basic", "bearer"):
-            scheme = {"type": "http", "scheme": sec["kind"]}
+            scheme = {"type": "http", "scheme": {"lower": sec["kind"], "title": sec["kind"].title(), "upper": sec["kind"].upper()}[sec.get("spelling", "lower")]}
         else:
             scheme = {"type": "apiKey", "in": sec["kind"].split("-")[1], "name": sec["name"]}
         doc["components"]["securitySchemes"] = {"s": scheme}
